@@ -6,25 +6,27 @@ from . import common
 ID = 'C01'
 RULE = ('Hypothesis histories of 1-14 add_interaction / add_interactions_from / add_path / add_star / add_cycle '
         '(method and dn.* forms) / add_node calls on removal-enabled DynGraph and DynDiGraph, each span positioned '
-        'relative to the latest run of its pair (start, inside, end, end+1, gap, identical, before); thorough adds the '
-        'exhaustive single-pair sweep. After every call: outcome vs the documented rule and has_interaction over all '
+        'relative to the latest run of its pair (start, inside, end, end+1, gap, identical, before); 12 fixed histories with a pair of '
+        '65-130 runs; thorough adds the exhaustive single-pair sweep. After every call: outcome vs the documented rule and has_interaction over all '
         'ordered node pairs of the universe x every probe instant (range-2..range+2 and far values) vs the model. '
         'non-trivial = some accepted span was adjacent to, overlapping, contained in or identical to an earlier run of '
         'its pair; distinct = hash of the concrete call list.')
 ASSUMPTIONS = ['vanishing times satisfy e > t (documented meaning); node ids are hashable, non-None, not float/bool',
-               'timestamps are Python ints from 7 bases (0, 1, -7, 1e3, -1e6, 1e9) with offsets 0..~14']
+               'timestamps are Python ints: base + offset, bases 0, 1, -7, -3, 1e3, -1e6, 1e9, 2^63-4, -2^63-40, 2^70, offsets 0..~14 (longer in the long-timeline cases); one history in five is played 10^4400 instants later or earlier']
 TECHNIQUE = 'model-based PBT: Hypothesis call histories run in lock step against a reference model (presence = union of spans); exhaustive single-pair histories in the thorough tier'
 BUDGET = {'quick': {'cases': 24000, 'seconds': 40}, 'thorough': {'cases': 400000, 'seconds': 540}}
 
 
 def strategy(tier):
-    return gen.tiered(tier, max_ops=14, kinds=gen.ADD_KINDS + ['add', 'add', 'missing_t'])
+    return gen.tiered(tier, max_ops=14, kinds=gen.ADD_KINDS + ['add', 'add', 'missing_t'], shifts=True)
 
 
 def exhaustive(tier):
+    import itertools
+    long_ = gen.very_long_cases()       # every tier: twelve fixed histories with a pair of 65-130 runs
     if tier != 'thorough':
-        return None
-    return {'cases': common.single_pair_histories(), 'bound': common.SINGLE_PAIR_BOUND}
+        return {'cases': long_, 'bound': '12 fixed very long histories (one pair with 65-130 runs)'}
+    return {'cases': itertools.chain(long_, common.single_pair_histories()), 'bound': common.SINGLE_PAIR_BOUND + '; 12 fixed very long histories (one pair with 65-130 runs)'}
 
 
 def run_case(case, rec):
